@@ -55,8 +55,8 @@ fn main() {
     };
     // deterministic environment for git
     std::env::set_var("GIT_CONFIG_NOSYSTEM", "1");
-    std::env::set_var("GIT_AUTHOR_DATE", "2024-01-01T00:00:00Z");
-    std::env::set_var("GIT_COMMITTER_DATE", "2024-01-01T00:00:00Z");
+    std::env::set_var("HOME", "/nonexistent-home-for-tcmc");
+    std::env::set_var("GIT_TERMINAL_PROMPT", "0");
     let code = std::panic::catch_unwind(|| dispatch(&cmd, &opts));
     util::cleanup_scratch();
     match code {
@@ -82,6 +82,7 @@ fn dispatch(cmd: &str, opts: &Opts) -> i32 {
         "C18" => props::c18::run(opts),
         "C19" => props::c19::run(opts),
         "C20" => props::c20::run(opts),
+        "C08" => props::c08::run(opts),
         "C09" => props::c09::run(opts),
         "C10" => props::c10::run(opts),
         "C12" => props::c12::run(opts),
